@@ -243,10 +243,23 @@ fn fmt_case(out: &mut String, d: &[u8], rep: usize) {
     let mr = mut_reps(d);
     let (bn, b) = &br[rep % br.len()];
     let (mn, m) = &mr[rep % mr.len()];
-    for (ty, rn, dbg, lx, ux) in [
-        ("Bytes", *bn, format!("{:?}", b), format!("{:x}", b), format!("{:X}", b)),
-        ("BytesMut", *mn, format!("{:?}", m), format!("{:x}", m), format!("{:X}", m)),
-    ] {
+    // the format specification must not change what is printed: width, fill, precision, `#` and
+    // zero padding are rotated over the cases
+    macro_rules! three {
+        ($v:expr) => {
+            match rep % 6 {
+                1 => (format!("{:4?}", $v), format!("{:4x}", $v), format!("{:4X}", $v)),
+                2 => (format!("{:.0?}", $v), format!("{:.1x}", $v), format!("{:.3X}", $v)),
+                3 => (format!("{:#?}", $v), format!("{:#x}", $v), format!("{:#X}", $v)),
+                4 => (format!("{:<12?}", $v), format!("{:>9x}", $v), format!("{:^7X}", $v)),
+                5 => (format!("{:08?}", $v), format!("{:08x}", $v), format!("{:+X}", $v)),
+                _ => (format!("{:?}", $v), format!("{:x}", $v), format!("{:X}", $v)),
+            }
+        };
+    }
+    let (bd, bl, bu) = three!(b);
+    let (md, ml, mu) = three!(m);
+    for (ty, rn, dbg, lx, ux) in [("Bytes", *bn, bd, bl, bu), ("BytesMut", *mn, md, ml, mu)] {
         out.push_str("{\"k\":\"fmt\",\"d\":");
         jb(out, d);
         let _ = write!(out, ",\"ty\":\"{}\",\"rep\":\"{}\",\"dbg\":", ty, rn);
